@@ -51,6 +51,19 @@ def _unfloor(t_):
     """floor(floor(x) / k) = floor(x / k) for a positive integer k: int(int(x) // 2) and int(x / 2) are the same number for x >= 0"""
     if not t_:
         return t_
+    # int(int(x)) = int(x): truncation is idempotent
+    while True:
+        i = t_.find("int[int[")
+        if i < 0:
+            break
+        j = i + len("int[int[")
+        depth, k = 1, j
+        while k < len(t_) and depth:
+            depth += {"[": 1, "]": -1}.get(t_[k], 0)
+            k += 1
+        if depth or not t_[k:].startswith("]"):
+            break
+        t_ = t_[:i] + "int[" + t_[j:k - 1] + "]" + t_[k + 1:]
     key = "int[div[int["
     pos = 0
     while True:
